@@ -13,7 +13,7 @@ P = {
          "typestate/must-pass-through over SSA CFG with defer exit sequences; recover-site census; callback bracket census", "DESIGN.md §3 C02"),
  "C03": ("only the structural part of the generator contracts: every enforcement guard dominates its return (u<=max, filter predicate, regexp re-check), reject and accumulate are exclusive, indices are drawn against the length of what they index, inputs are never stored through, kind tables agree with Go types, every per-draw loop makes bitstream progress or is bounded, every built-in value method reads the stream on every path to a return (the regexp generators excepted: recursion over the syntax tree, not decided), the string byte budget is tested against maxLen itself, Make's kind generator is converted where a named type needs it and is built for (or looked up by) the requested reflect.Type. The arithmetic (integer extremes, floats, UTF-8) is NOT decided.",
          "guard-dominance rules, table agreement via go/types + constant folding, loop census over natural loops", "DESIGN.md §3 C03"),
- "C04": ("noninterference: inside the generation closure nothing but the bitstream, immutable parameters and process-constant configuration can influence a draw; nothing derived from discarded (rejected) bits influences later draws except through the replay-neutral zero-width stop; both stream implementations return exactly what they record, identically masked; the PRNG state is fully re-initialised per test case; prune removes exactly the discarded groups; the recording only grows outside prune (drawn() agrees between recording and replaying streams); a non-fatal failure signalled inside an attempt is consulted before the attempt is discarded, so the verdict does not rest on pruned bits.",
+ "C04": ("noninterference: inside the generation closure nothing but the bitstream, immutable parameters and process-constant configuration can influence a draw; nothing derived from discarded (rejected) bits influences later draws except through the replay-neutral zero-width stop; both stream implementations return exactly what they record, identically masked; the PRNG state is fully re-initialised per test case; prune removes exactly the discarded groups; the recording only grows outside prune (drawn() agrees between recording and replaying streams); a non-fatal failure signalled inside an attempt is consulted before the attempt is discarded, so the verdict does not rest on pruned bits; the length-control state of repeat is written by its own methods only; endGroup's assertion is made in both recording modes.",
          "nondeterminism census over the VTA call-graph closure; discard-taint dataflow; sibling agreement of drawBits; field-access index", "DESIGN.md §3 C04"),
  "C05": ("the shrinker's current best (rec, err) is written only by accept, only after the candidate compared strictly shortlex-smaller and its execution produced the same traceback, and shrink returns that state; compareData is a shortlex comparator; every pass re-checks the deadline per step; candidates never alias the current best. Strict decrease in a well-founded order gives termination.",
          "guard-dominance and who-may-write rules over SSA; comparator return/guard table; loop-header census", "DESIGN.md §3 C05"),
